@@ -27,6 +27,7 @@ typedef struct wl_rt {
     int pool_es[WL_MAX_POOLS]; /* index of the only ES serving it, or -1 if shared */
     int pool_kind[WL_MAX_POOLS];
     int topo;
+    int es_first_pool[WL_MAX_ES]; /* index in pools[] of the first pool of each ES's main scheduler */
     int joined[WL_MAX_ES];
 } wl_rt;
 
@@ -37,6 +38,7 @@ typedef struct wl_rt {
 #define WL_RT_MIN2ES 8
 #define WL_RT_PRIVATE_ONLY 16 /* every pool served by exactly one ES */
 #define WL_RT_BASIC_ONLY 32   /* BASIC schedulers only */
+#define WL_RT_NO_TOPO2 64     /* no stream other than the primary has two pools (unbounded yield loops cannot starve a lower-priority pool) */
 
 extern const char *wl_sched_names[];
 extern const char *wl_pool_names[];
